@@ -75,8 +75,18 @@ const (
 	bitsEmpty
 )
 
+// grading styles: how a participant fills the grade bits of its long answers
+const (
+	gradeCareful      = iota // the way the rules ask for: D by default, at most one increased grade, reports only for flips it finds bad and for fewer than 34 % of its flips
+	gradeLegacyRandom        // independent random grade per flip (mostly several increased grades)
+	gradeOverIncrease        // like careful, but two or more grades above D
+	gradeOverReport          // reports 34 % of its flips or more
+	gradeNoApprove           // no approving grade at all (none / a few reports)
+)
+
 type participation struct {
 	Class     int
+	Grading   int
 	Skill     int // percent of flips answered like the majority truth
 	Seed      int64
 	ShortBits int
@@ -116,6 +126,7 @@ type caseSpec struct {
 	Clocks   []int64
 	Reset    *resetSpec // chain-reset scenario (nil: not run)
 	Mempool  *mempoolSpec // gossiped, un-mined transactions scenario (nil: not run)
+	Sync     *syncSpec    // node with another sync status handling the blocks period by period (nil: not run)
 
 	byAddr map[common.Address]int
 }
@@ -169,6 +180,9 @@ func (s *caseSpec) describe() string {
 	}
 	if s.Mempool != nil {
 		fmt.Fprintf(&b, "  gossip scenario: %s\n", s.Mempool)
+	}
+	if s.Sync != nil {
+		fmt.Fprintf(&b, "  sync-status scenario: %s\n", s.Sync)
 	}
 	return b.String()
 }
@@ -690,6 +704,93 @@ type flipTruth struct {
 	bad   bool // deserves a report
 }
 
+// drawGrades fills the grades of one long answer list according to the participant's grading style.
+func drawGrades(rng *rand.Rand, p participation, longList []int, truth []flipTruth) []types.Grade {
+	n := len(longList)
+	res := make([]types.Grade, n)
+	if n == 0 {
+		return res
+	}
+	findsBad := func(f int) bool { return truth[f%len(truth)].bad && rng.Intn(100) < p.Skill }
+	tooMany := func(reports int) bool { return float32(reports)/float32(n) >= 0.34 }
+	increased := func() types.Grade { return types.Grade(3 + rng.Intn(3)) }
+	reports := 0
+	switch p.Grading {
+	case gradeLegacyRandom:
+		for i, f := range longList {
+			switch {
+			case findsBad(f):
+				res[i] = types.GradeReported
+			case rng.Intn(12) == 0:
+				// no grade
+			case rng.Intn(15) == 0:
+				res[i] = types.GradeReported
+			default:
+				res[i] = types.Grade(2 + rng.Intn(4))
+			}
+		}
+		return res
+	case gradeNoApprove:
+		for i, f := range longList {
+			if findsBad(f) && !tooMany(reports+1) {
+				res[i] = types.GradeReported
+				reports++
+			}
+		}
+		return res
+	}
+	// careful / over-increase / over-report: D by default, some flips without a grade, bad flips reported
+	for i, f := range longList {
+		switch {
+		case findsBad(f) && (p.Grading == gradeOverReport || !tooMany(reports+1)):
+			res[i] = types.GradeReported
+			reports++
+		case rng.Intn(12) == 0:
+			// no grade
+		default:
+			res[i] = types.GradeD
+		}
+	}
+	if p.Grading == gradeOverReport {
+		for _, i := range rng.Perm(n) {
+			if tooMany(reports) {
+				break
+			}
+			if res[i] != types.GradeReported {
+				res[i] = types.GradeReported
+				reports++
+			}
+		}
+	}
+	var approved []int
+	for i, g := range res {
+		if g == types.GradeD {
+			approved = append(approved, i)
+		}
+	}
+	if len(approved) == 0 && p.Grading != gradeOverReport {
+		for _, i := range rng.Perm(n) {
+			if res[i] == types.GradeNone {
+				res[i] = types.GradeD
+				approved = append(approved, i)
+				break
+			}
+		}
+	}
+	rng.Shuffle(len(approved), func(a, b int) { approved[a], approved[b] = approved[b], approved[a] })
+	up := 0
+	switch p.Grading {
+	case gradeOverIncrease:
+		up = 2 + rng.Intn(3)
+	default:
+		up = rng.Intn(2)
+	}
+	for k := 0; k < up && k < len(approved); k++ {
+		res[approved[k]] = increased()
+	}
+	return res
+}
+
 // buildMessages creates the ceremony transactions of all participants.
 func buildMessages(s *caseSpec, tables []ceremony.VerifC17Shard, parts []participation) []message {
 	var msgs []message
@@ -741,16 +842,10 @@ func buildMessages(s *caseSpec, tables []ceremony.VerifC17Shard, parts []partici
 				case types.Right:
 					la.Right(uint(i))
 				}
-				tr := truth[f%len(truth)]
-				switch {
-				case tr.bad && rng.Intn(100) < p.Skill:
-					la.Grade(uint(i), types.GradeReported)
-				case rng.Intn(12) == 0:
-					// no grade
-				case rng.Intn(15) == 0:
-					la.Grade(uint(i), types.GradeReported)
-				default:
-					la.Grade(uint(i), types.Grade(2+rng.Intn(4)))
+			}
+			for i, g := range drawGrades(rng, p, longList, truth) {
+				if g != types.GradeNone {
+					la.Grade(uint(i), g)
 				}
 			}
 			shortBits := mutateBits(sa.Bytes(), p.ShortBits, rng)
